@@ -48,10 +48,10 @@ MethodsA == <<"GET", "HEAD", "POST", "OPTIONS", "TRACE", "BOGUS", "">>
 \* ---------------- pool B: >= 5 literal siblings (first-byte index), top-level literals without '/'
 LitB  == {"/s/a", "/s/b", "/s/c", "/s/d", "/s/e", "/s/f", "/s/g"}
 TopB  == {"a", "b", "c", "d", "e", "f"}
-PatsB == LitB \cup TopB \cup {"/s/{id}", "/s/{n:\\d+}", "{top}", "/s/{id}/t", "/s/{k:digit}/t/{r}", "/s/{uid}/t"}
+PatsB == LitB \cup TopB \cup {"/s/ta", "/s/tb", "/s/tc", "/s/{id}", "/s/{n:\\d+}", "{top}", "/s/{id}/t", "/s/{k:digit}/t/{r}", "/s/{uid}/t"}
 HOpsB == {H(p, ms) : p \in PatsB, ms \in {G, P}}
 ROpsB == {Rm(p, ms) : p \in PatsB, ms \in {<<>>, G}}
-COpsB == {Cl(""), Cl("/s/"), Cl("/s/a"), Cl("a")}
+COpsB == {Cl(""), Cl("/s/"), Cl("/s/a"), Cl("a"), Cl("/s/t")}
 UOpsB == {}
 CfgsB == {Cfg(FALSE)}
 BaseB1 == <<H("/s/a", G), H("/s/b", G), H("/s/c", G), H("/s/d", G), H("/s/e", G), H("/s/f", G), H("/s/g", G), H("/s/{id}", G), H("/s/{n:\\d+}", G)>>
@@ -61,12 +61,13 @@ BaseB4 == BaseB1 \o <<H("/s/{id}/t", G), H("/s/{k:digit}/t/{r}", G)>>
 \* a differently named parameter with a sub-tree sorts right after the literals: reached through the first-byte index it
 \* captures, fails below, and must leave nothing behind
 BaseB5 == <<H("/s/a", G), H("/s/b", G), H("/s/c", G), H("/s/d", G), H("/s/e", G), H("/s/f", G), H("/s/g", G), H("/s/{uid}/t", G), H("/s/{id}", G)>>
-BasesB == {BaseB1, BaseB2, BaseB3, BaseB4, BaseB5, BaseB1 \o BaseB2}
+BaseB6 == <<H("/s/ta", G), H("/s/tb", G), H("/s/tc", G), H("/s/d", G), H("/s/e", G), H("/s/f", G), H("/s/g", G)>>
+BasesB == {BaseB1, BaseB2, BaseB3, BaseB4, BaseB5, BaseB6, BaseB1 \o BaseB2}
 ProbesB == <<W("/s/a", <<>>), W("/s/b", <<>>), W("/s/c", <<>>), W("/s/d", <<>>), W("/s/e", <<>>), W("/s/f", <<>>), W("/s/g", <<>>),
              W("/s/{id}", [id |-> "7q"]), W("/s/{n:\\d+}", [n |-> "77"]), W("{top}", [top |-> "7q"]),
              W("a", <<>>), W("b", <<>>), W("c", <<>>), W("d", <<>>), W("e", <<>>), W("f", <<>>),
              W("/s/{id}/t", [id |-> "7q"]), W("/s/{k:digit}/t/{r}", [k |-> "77", r |-> "8w"]),
-             A("/s/zz"), A("/s/ab"), A("/s/"), A("/s/a/"), A("/s/h"), A("fz"), A("g"), A("/"), A(""), A("*"),
+             W("/s/ta", <<>>), W("/s/tc", <<>>), A("/s/zz"), A("/s/ab"), A("/s/"), A("/s/a/"), A("/s/h"), A("fz"), A("g"), A("/"), A(""), A("*"),
              W("/s/{uid}/t", [uid |-> "7q"]), A("/s/g7/t/zz"), A("/s/a7/t/zz"), A("/s/g7/t"), A("/s/g7/zz"), A("/s/a7/t"), A("/s/a/t"), A("/s/f1/t/zz"), A("/s/77/t"), A("/s/g"), A("/s/g/t/")>>
 MethodsB == <<"GET", "HEAD", "POST", "OPTIONS", "BOGUS">>
 
@@ -87,17 +88,17 @@ ProbesC == <<W("/posts/author", <<>>), W("/posts/abc", <<>>), W("/posts/{id}/aut
 MethodsC == <<"GET", "HEAD", "POST", "DELETE", "PUT", "OPTIONS", "TRACE", "BOGUS">>
 
 \* ---------------- pool X: Handle / Remove with every kind of method list (C17, C08, C03)
-PatsX == {"/u/{id}/ab", "/u/{id}/ac", "/u/{id}", "/u/{name}", "/x", "/u/{id:\\d+}", "/u/{name}/a"}
-BadPatsX == {"/u/{}", "/u/{a}{b}", "/u/{a}/{a}", "", "/u/{:\\d+}", "/u/{a}/{-a}", "/u/{-a}/{a:\\d+}"}
-ListsX == {G, P, <<"GET", "BOGUS">>, <<"BOGUS", "GET">>, <<"HEAD">>, <<"POST", "OPTIONS">>, <<"TRACE">>, <<"GET", "GET">>, <<"GET", "POST">>, <<>>}
+PatsX == {"/u/{id}/ab", "/u/{id}/ac", "/u/{id}", "/u/{name}", "/x", "/u/{id:\\d+}", "/u/{name}/a", "/u/{id}/", "/u/{name}/"}
+BadPatsX == {"/u/{}", "/u/{a}{b}", "/u/{a}/{a}", "", "/u/{:\\d+}", "/u/{a}/{-a}", "/u/{-a}/{a:\\d+}", "/u/{a:\\d+}{b}", "/u/{a:digit}{b}"}
+ListsX == {G, P, <<"GET", "BOGUS">>, <<"BOGUS", "GET">>, <<"HEAD">>, <<"POST", "OPTIONS">>, <<"TRACE">>, <<"GET", "GET">>, <<"GET", "POST">>, <<"GET", "POST", "GET">>, <<>>}
 HOpsX == {H(p, ms) : p \in PatsX, ms \in ListsX} \cup {H(p, G) : p \in BadPatsX}
-ROpsX == {Rm(p, ms) : p \in PatsX \ {"/u/{name}", "/u/{name}/a"}, ms \in {<<>>, G, <<"HEAD">>, <<"OPTIONS">>, <<"">>, <<"BOGUS">>, <<"TRACE">>, <<"POST", "GET">>}}
+ROpsX == {Rm(p, ms) : p \in PatsX \ {"/u/{name}", "/u/{name}/a", "/u/{name}/"}, ms \in {<<>>, G, <<"HEAD">>, <<"OPTIONS">>, <<"">>, <<"BOGUS">>, <<"TRACE">>, <<"POST", "GET">>}}
 COpsX == {Cl(""), Cl("/u/{id}/a")}
 UOpsX == {}
 CfgsX == {Cfg(FALSE), Cfg(TRUE)}
-BasesX == {<<>>, <<H("/u/{id}/ab", G)>>, <<H("/u/{id}", GP), H("/x", G)>>, <<H("/u/{id}/ab", G), H("/u/{id}/ac", P)>>}
+BasesX == {<<>>, <<H("/u/{id}/ab", G)>>, <<H("/u/{id}", GP), H("/x", G)>>, <<H("/u/{id}/ab", G), H("/u/{id}/ac", P)>>, <<H("/u/{id}/", GP), H("/u/{id}/ab", G)>>}
 ProbesX == <<W("/u/{id}/ab", [id |-> "7q"]), W("/u/{id}/ac", [id |-> "7q"]), W("/u/{id}", [id |-> "7q"]), W("/u/{name}", [name |-> "7q"]),
-             W("/x", <<>>), W("/u/{id:\\d+}", [id |-> "77"]), W("/u/{name}/a", [name |-> "7q"]),
+             W("/x", <<>>), W("/u/{id:\\d+}", [id |-> "77"]), W("/u/{name}/a", [name |-> "7q"]), W("/u/{id}/", [id |-> "7q"]),
              A("/u/x/ac/ab"), A("/u/7q/a"), A("/u/7/ab/ab"), A("/u/"), A("/"), A(""), A("*")>>
 MethodsX == <<"GET", "HEAD", "POST", "OPTIONS", "TRACE", "BOGUS", "">>
 
@@ -126,13 +127,14 @@ ProbesY == <<W("/x", <<>>), W("/u/{id}", [id |-> "7q"]), A("/u/"), A("/zz"), A("
 MethodsY == <<"GET", "HEAD", "POST", "OPTIONS", "TRACE", "BOGUS">>
 
 \* ---------------- pool R: a surviving node loses all of its five children, one by one (every order, with repeats)
-PatsR == {"/a", "/b", "/c", "/d", "/e"}
+PatsR == {"/a", "/b", "/c", "/d", "/e", "/a1x", "/a1y"}
 HOpsR == {H("/a", P)}
 ROpsR == {Rm(p, <<>>) : p \in PatsR}
 COpsR == {}  UOpsR == {}
 CfgsR == {Cfg(FALSE)}
 BasesR == {<<H("/", G), H("/a", G), H("/b", G), H("/c", G), H("/d", G), H("/e", G)>>,
-           <<H("/a", G), H("/b", G), H("/c", G), H("/d", G), H("/e", G), H("{top}", G)>>}
-ProbesR == <<W("/", <<>>), W("/a", <<>>), W("/b", <<>>), W("/e", <<>>), W("{top}", [top |-> "7q"]), A("/zz"), A("/a/x"), A("x"), A(""), A("*")>>
+           <<H("/a", G), H("/b", G), H("/c", G), H("/d", G), H("/e", G), H("{top}", G)>>,
+           <<H("/a1x", G), H("/a1y", G), H("/c", G), H("/d", G), H("/e", G), H("/f", G)>>}
+ProbesR == <<W("/", <<>>), W("/a", <<>>), W("/b", <<>>), W("/e", <<>>), W("/c", <<>>), W("/d", <<>>), W("/f", <<>>), W("/a1x", <<>>), W("/a1y", <<>>), W("{top}", [top |-> "7q"]), A("/zz"), A("/a/x"), A("x"), A(""), A("*")>>
 MethodsR == <<"GET", "POST", "OPTIONS">>
 =============================================================================
